@@ -192,3 +192,93 @@ theorem setValues_ok (t : Tbl) (h : Inv t) (x y : Int) (m : List (List Nat)) :
       simp [hl, this]
 
 end Odf.Table
+
+namespace Odf.Table
+open Odf.Rle Odf.Grid
+
+theorem setRow_inside (g : Grid) (y : Nat) (row : List Nat) (hy : y < Grid.height g) (hnc : 1 ≤ g.ncols) :
+    Grid.setRow g y row 1 = widen { g with rows := setSlice g.rows y 1 row } row.length := by
+  unfold Grid.setRow
+  rw [padRows_le _ _ (by simp only [Grid.height] at hy; omega)]
+  exact declare_noop _ _ (by simp only [widen]; omega)
+
+/-- the row-by-row loop of `set_column_cells` against the loop of the grid -/
+theorem colLoop_ok (xn : Nat) (rs : List RowD) (cs : List Nat) (hlen : rs.length = cs.length) (hpos : ∀ d ∈ rs, Pos d)
+    (t : Tbl) (h : Inv t) (y : Nat) (hrows : (absT t).rows.drop y = rs.map expand) :
+    ∃ t', (rs.zip cs).foldl (fun (acc : Option (Tbl × Nat)) (p : RowD × Nat) =>
+        acc.bind (fun (t', y) =>
+          (rowSetCell (rowObj p.1) xn p.2 1).bind (fun ro => (setRow t' y ro.runs 1).map (fun t'' => (t'', y + 1)))))
+        (some (t, y)) = some (t', y + rs.length) ∧ Inv t' ∧
+      absT t' = (cs.foldl (fun (acc : Grid × Nat) c => (setCellN acc.1 xn acc.2 c 1, acc.2 + 1)) (absT t, y)).1 := by
+  induction rs generalizing cs t y with
+  | nil =>
+    cases cs with
+    | nil => exact ⟨t, rfl, h, rfl⟩
+    | cons c cs' => simp at hlen
+  | cons d rest ih =>
+    cases cs with
+    | nil => simp at hlen
+    | cons c cs' =>
+      simp only [List.zip_cons_cons, List.foldl_cons, Option.bind_some, List.length_cons]
+      have hd : Pos d := hpos d (by simp)
+      obtain ⟨ro, ef, mro, ex⟩ := rowSetCell_ok (rowObj d) (rowObj_ok d hd) xn c 1 (Nat.le_refl 1)
+      have hex : expand ro.runs = setSlice (padRow (expand d) xn) xn 1 c := ex
+      rw [ef]
+      simp only [Option.bind_some]
+      -- row y exists and is `expand d`
+      have hlenr : y < (absT t).rows.length := by
+        by_cases hh : y < (absT t).rows.length
+        · exact hh
+        · rw [List.drop_of_length_le (by omega)] at hrows; simp at hrows
+      have hgd : (absT t).rows.getD y [] = expand d := by
+        have := congrArg List.head? hrows
+        simp only [List.map_cons, List.head?_cons, List.head?_drop] at this
+        rw [List.getD_eq_getElem?_getD, this]; rfl
+      have hht : y < Grid.height (absT t) := hlenr
+      have hnc : 1 ≤ (absT t).ncols := ncols_pos_of_rows t h (by rw [height_ok t h]; omega)
+      obtain ⟨t1, e1, i1, a1⟩ := setRow_ok t h y ro.runs 1 mro.2 (Nat.le_refl 1)
+      rw [e1]
+      simp only [Option.map_some]
+      have hstep : absT t1 = setCellN (absT t) xn y c 1 := by
+        rw [a1, hex]
+        unfold setCellN
+        rw [editRowN_inside _ _ _ hht hnc, hgd, setRow_inside _ _ _ hht hnc]
+      have hrows1 : (absT t1).rows.drop (y + 1) = rest.map expand := by
+        rw [a1, setRow_inside _ _ _ hht hnc]
+        simp only [widen, setSlice]
+        rw [List.drop_append, List.drop_of_length_le (by simp; omega)]
+        simp only [List.length_append, List.length_take, List.length_replicate, List.nil_append]
+        have hmin : min y (absT t).rows.length = y := by omega
+        rw [hmin, Nat.sub_self, List.drop_zero]
+        have := congrArg List.tail hrows
+        simp only [List.map_cons, List.tail_cons, List.tail_drop] at this
+        exact this
+      obtain ⟨t', e, i, a⟩ := ih cs' (by simpa using hlen) (fun q hq => hpos q (by simp [hq])) t1 i1 (y + 1) hrows1
+      refine ⟨t', by rw [e]; congr 2; omega, i, ?_⟩
+      rw [a, hstep]
+
+/-- **set_column_cells / set_column_values(x, cells)** — for a list as long as the table is high
+    (otherwise the call raises `ValueError`, `none` in the model) -/
+theorem setColumnValues_ok (t : Tbl) (h : Inv t) (x : Int) (cells : List Nat) (hl : cells.length = height t) :
+    ∃ t', setColumnValues t x cells = some t' ∧ Inv t' ∧ absT t' = Grid.setColumnValues (absT t) x cells := by
+  have hrl : (expandedRows t).length = cells.length := by
+    rw [hl, height_ok t h]; simp [expandedRows, absT, Grid.height]
+  obtain ⟨t', e, i, a⟩ := colLoop_ok (tr x (width t)) (expandedRows t) cells hrl
+    (fun d hd => by
+      obtain ⟨p, hp, rfl⟩ := mem_of_mem_expand _ d hd
+      exact h.cells p hp) t h 0 (by simp [absT, expandedRows])
+  refine ⟨t', ?_, i, ?_⟩
+  · unfold setColumnValues
+    rw [if_neg (by omega)]
+    simp only
+    rw [e]; rfl
+  · rw [a]
+    unfold Grid.setColumnValues
+    simp only
+    rw [tr_eq_norm, width_ok t h]
+
+theorem setColumnValues_wrong_length (t : Tbl) (x : Int) (cells : List Nat) (hl : cells.length ≠ height t) :
+    setColumnValues t x cells = none := by
+  unfold setColumnValues; rw [if_pos hl]
+
+end Odf.Table
